@@ -145,19 +145,88 @@ theorem crc_field_corruption_detected (inner : Src σ) {s : σ} (data tail : Byt
       data (.err .other) :=
   stored_corruption_detected inner data tail declared' h (fun e => hbad e.symm)
 
-/-- The same for ANY method: whatever the decoder makes of the (possibly damaged) compressed bytes,
-if what it outputs up to its clean end has a CRC-32 different from the declared one, the read fails.
-(Needs the codec hypothesis only to know that the decoder has a denotation at all.) -/
-theorem codec_corruption_detected (c : Codec) (hc : c.ChunkIndependentNZ) (inner : Src σ) {s : σ}
-    {A : Bytes} {o : Term} (csize : Nat) (declared : UInt32) (h : Denotes inner s A o)
-    (hbad : Crc32.crc32 (c.decode (A.take csize) (takeTerm csize A o)).1 ≠ declared) :
-    ∃ t, t ≠ .eof ∧ Denotes (entryPipeline c inner declared false) (c.init (s, csize), Crc32.init)
-      (c.decode (A.take csize) (takeTerm csize A o)).1 t := by
-  refine ⟨_, ?_, Model.Layers.crc_denotes_nz _ declared false
-    (hc.denotes _ _ _ _ (Model.Layers.take_denotes inner csize h))⟩
-  cases (c.decode (A.take csize) (takeTerm csize A o)).2 with
-  | eof => simp [crcTerm, hbad]
-  | err e => simp [crcTerm]
+/-! ### Every method: the decoder is an ARBITRARY reader
+
+REMOVED (review finding F3): `codec_corruption_detected` took `Codec.ChunkIndependentNZ` as a
+hypothesis - chunk independence of the decoder on EVERY stream, damaged ones included.  The real
+decoders do not satisfy it (`pickyCodec_not_chunk_independent` shows the failure on a model decoder
+of the same kind), so the theorem said nothing exactly where it matters.  What follows needs no
+hypothesis on the decoder at all: it may error early or late, end early, or hand out garbage, and
+all of that may depend on the buffer sizes. -/
+
+/-- **Soundness at entry level, every method, unencrypted entries**: `c` is any decoder (its `layer`
+is an arbitrary function from readers to readers - nothing is assumed, not even determinism in the
+schedule), `inner` any reader holding the archive from the entry's data start, `csize` the compressed
+size in the central record: a read loop with any buffer sizes that ends with a clean end-of-file has
+returned bytes whose CRC-32 is the declared one (or the entry is AE-2). -/
+theorem entry_read_sound_any_method (c : Codec) (inner : Src σ) (check : UInt32) (ae2 : Bool)
+    (s : σ) (csize : Nat) (reqs : List Nat) {b : Bytes} {s' : c.St (σ × Nat) × UInt32}
+    (h : readToEnd (entryPipeline c inner check ae2) (c.init (s, csize), Crc32.init) reqs
+      = some (b, .eof, s')) :
+    ae2 = true ∨ Crc32.crc32 b = check :=
+  entry_read_sound (c.layer (take inner)) check ae2 (c.init (s, csize)) reqs h
+
+/-- The same for ZipCrypto entries (any cipher step `dec`, any decoder). -/
+theorem entry_read_sound_zipcrypto (c : Codec) (dec : κ → UInt8 → UInt8 × κ) (inner : Src σ)
+    (check : UInt32) (s : σ) (lim : Nat) (k : κ) (reqs : List Nat) {b : Bytes}
+    {s' : c.St ((σ × Nat) × κ) × UInt32}
+    (h : readToEnd (entryPipelineZc c dec inner check) (c.init ((s, lim), k), Crc32.init) reqs
+      = some (b, .eof, s')) :
+    Crc32.crc32 b = check := by
+  rcases entry_read_sound (c.layer (zipCryptoLayer dec (take inner))) check false
+    (c.init ((s, lim), k)) reqs h with h1 | h1
+  · cases h1
+  · exact h1
+
+/-- **Corruption of stored / compressed data, every method: detected unless CRC-32 collides.**
+Two reads of "the same entry" (same declared CRC, not AE-2): one over the intact archive (reader
+`inner₁`), one over a damaged copy (reader `inner₂`, which may also fragment differently), with any
+two decoders behaviours and any two buffer schedules.  If the damage changes what the read returns in
+a way CRC-32 sees (`crc32 b₂ ≠ crc32 b₁`) the damaged read does NOT end with a clean end-of-file: a
+finished loop has ended in an error. -/
+theorem damage_detected_unless_collision {σ₁ σ₂ : Type} (c₁ c₂ : Codec) (inner₁ : Src σ₁)
+    (inner₂ : Src σ₂) (check : UInt32) (s₁ : σ₁) (s₂ : σ₂) (csize₁ csize₂ : Nat)
+    (reqs₁ reqs₂ : List Nat) {b₁ b₂ : Bytes} {t₂ : Term} {e₁ : c₁.St (σ₁ × Nat) × UInt32}
+    {e₂ : c₂.St (σ₂ × Nat) × UInt32}
+    (h₁ : readToEnd (entryPipeline c₁ inner₁ check false) (c₁.init (s₁, csize₁), Crc32.init) reqs₁
+      = some (b₁, .eof, e₁))
+    (h₂ : readToEnd (entryPipeline c₂ inner₂ check false) (c₂.init (s₂, csize₂), Crc32.init) reqs₂
+      = some (b₂, t₂, e₂))
+    (hdiff : Crc32.crc32 b₂ ≠ Crc32.crc32 b₁) :
+    t₂ ≠ .eof := by
+  intro ht
+  subst ht
+  rcases entry_read_sound_any_method c₁ inner₁ check false s₁ csize₁ reqs₁ h₁ with h | h
+  · cases h
+  rcases entry_read_sound_any_method c₂ inner₂ check false s₂ csize₂ reqs₂ h₂ with h' | h'
+  · cases h'
+  exact hdiff (h'.trans h.symm)
+
+/-- In particular a damaged read whose output differs from the intact one in exactly one byte (hence
+in one bit) ends in an error - no collision is possible. -/
+theorem decoded_single_byte_change_detected (c : Codec) (inner : Src σ) (s : σ) (csize : Nat)
+    (reqs : List Nat) (p q : Bytes) (a b : UInt8) (hab : a ≠ b) {t : Term}
+    {e : c.St (σ × Nat) × UInt32}
+    (h : readToEnd (entryPipeline c inner (Crc32.crc32 (p ++ a :: q)) false)
+      (c.init (s, csize), Crc32.init) reqs = some (p ++ b :: q, t, e)) :
+    t ≠ .eof := by
+  intro ht
+  subst ht
+  rcases entry_read_sound_any_method c inner _ false s csize reqs h with h1 | h1
+  · cases h1
+  · exact Crc32.crc32_detects_single_byte p q a b hab h1.symm
+
+/-- **Corruption of the declared CRC, every method.** Same reader below (any decoder over any
+archive reader), same buffer sizes: if the read completes with declared CRC `check`, then with any
+other declared CRC it returns the same bytes and fails with "Invalid checksum". -/
+theorem crc_field_corruption_detected_any_method (c : Codec) (inner : Src σ) (check check' : UInt32)
+    (hne : check' ≠ check) (s : σ) (csize : Nat) (reqs : List Nat) {b : Bytes}
+    {e : c.St (σ × Nat) × UInt32}
+    (h : readToEnd (entryPipeline c inner check false) (c.init (s, csize), Crc32.init) reqs
+      = some (b, .eof, e)) :
+    ∃ e', readToEnd (entryPipeline c inner check' false) (c.init (s, csize), Crc32.init) reqs
+      = some (b, .err .other, e') :=
+  readToEnd_crc_other_check (c.layer (take inner)) check check' hne reqs _ _ h
 
 /-- **CRC-32 detects every single-byte substitution** (hence every single-bit flip): two messages
 that differ in exactly one byte have different CRC-32. Not a 1 − 2⁻³² statement: the register update
@@ -226,5 +295,29 @@ example :
 /-- A single flipped bit: `0x31` → `0x30`. -/
 example : Crc32.crc32 [0x31, 0x32] ≠ Crc32.crc32 [0x30, 0x32] :=
   crc32_detects_single_byte [] [0x32] 0x31 0x30 (by decide)
+
+/-- `entry_read_sound_any_method` / `damage_detected_unless_collision` with a decoder whose behaviour
+on damaged input DOES depend on the buffer sizes (`pickyCodec`: a chunk containing a byte outside the
+format is rejected as a whole).  Stored bytes `[1, 2, 0x83]` where `[1, 2, 3]` was written: with
+1-byte buffers two bytes come out before the error, with a 4-byte buffer none - an error both times. -/
+example :
+    (readToEnd (entryPipeline pickyCodec scripted (Crc32.crc32 [1, 2, 3]) false)
+      (pickyCodec.init ((⟨[1, 2, 0x83, 9], [], [], none⟩ : Scripted), 3), Crc32.init) [1, 1, 1, 1]).map
+        (fun r => (r.1, r.2.1)) = some ([1, 2], Term.err .invalidData) ∧
+    (readToEnd (entryPipeline pickyCodec scripted (Crc32.crc32 [1, 2, 3]) false)
+      (pickyCodec.init ((⟨[1, 2, 0x83, 9], [], [], none⟩ : Scripted), 3), Crc32.init) [4, 4]).map
+        (fun r => (r.1, r.2.1)) = some ([], Term.err .invalidData) ∧
+    (readToEnd (entryPipeline pickyCodec scripted (Crc32.crc32 [1, 2, 3]) false)
+      (pickyCodec.init ((⟨[1, 2, 3, 9], [], [], none⟩ : Scripted), 3), Crc32.init) [4, 4]).map
+        (fun r => (r.1, r.2.1)) = some ([1, 2, 3], Term.eof) := by
+  refine ⟨by decide +kernel, by decide +kernel, by decide +kernel⟩
+
+/-- `crc_field_corruption_detected_any_method`, instance: the intact run above with the declared CRC
+changed. -/
+example :
+    (readToEnd (entryPipeline pickyCodec scripted (Crc32.crc32 [1, 2, 3] ^^^ 1) false)
+      (pickyCodec.init ((⟨[1, 2, 3, 9], [], [], none⟩ : Scripted), 3), Crc32.init) [4, 4]).map
+        (fun r => (r.1, r.2.1)) = some ([1, 2, 3], Term.err .other) := by
+  decide +kernel
 
 end ZipVerif.Props.C04
